@@ -40,4 +40,17 @@ def request_and_reply(m, p):
     except Exception as e:
         rep = "err:" + type(e).__name__
     out.append((req, rep))
+    # the same through JSON (tuples become lists): model of the code as it is -- levels survive, steady changes do not
+    import json
+    try:
+        m3 = ir.Simultaneous.from_portable(json.loads(json.dumps(p)))
+        i3 = m3._invariant
+        n3 = len(i3.quantities)
+        repj = ("ok wf=T " + ",".join(f"{q.human}~{H.KCH[q.kind]}~{'-' if q.logly is None else ('T' if q.logly else 'F')}" for q in i3.quantities)
+                + " " + "@".join(f"{ek[d.kind.name]};{d.human};{s.human}" for d, s in zip(i3.dynamic_equations, i3.steady_equations))
+                + " " + "".join("T" if b else "F" for b in (m3.is_linear, m3.is_flat, m3.is_deterministic))
+                + " " + "@".join(",".join(H.rat(v.levels[q]) for q in range(n3)) + ";" + ",".join(H.rat(v.changes[q]) for q in range(n3)) for v in m3._variants))
+    except Exception as e:
+        repj = "err:" + type(e).__name__
+    out.append((req.replace("port rt ", "port rtj ", 1), repj))
     return out
